@@ -109,7 +109,8 @@ Prods(sym, rich) ==
     [] sym = "DlKw"  -> {<<T("datalines")>>, <<T("CARDS")>>, <<T("Lines")>>}
     [] sym = "DlKw4" -> {<<T("datalines4")>>, <<T("cards4")>>, <<T("LINES4")>>}
     [] sym = "MVarRef" ->
-         {<<T("&mv")>>, <<T("&mv.")>>, <<T("&&mv&i")>>, <<T("&&&mv")>>, <<T("&mv..")>>, <<T("&&pre&i..")>>}
+         {<<T("&mv")>>, <<T("&mv.")>>, <<T("&&mv&i")>>, <<T("&&&mv")>>, <<T("&mv..")>>, <<T("&&pre&i..")>>,
+          <<T("&mv&&&i")>>, <<T("&&mv&&&&&i.")>>, <<T("&&&&&&&mv")>>}
     [] sym = "SQuoted" ->
          {<<X("'a'")>>, <<X("'a''b'")>>, <<X("'x=1,y;(z'")>>, <<X("''")>>, <<X("'a'n")>>, <<X("'01jan2020'd")>>,
           <<X("'1f'x")>>, <<X("'a'dt")>>}
